@@ -240,7 +240,7 @@ fn run(name: &str, j: &J) -> Result<bool, String> {
                 "d + 1", "d - d", "encode(w, 'hex')", "decode(w, 'hex')", "hex(x)", "is_bool(b)", "nosuchfunction(x, y)", "x::float", "x::text::integer", "sin(z)", "cos(n)", "sin(n)", "sin(x)",
                 "exp(1000 * q)", "exp(exp(q * 100))", "ln(exp(-1000 * q))", "1 / exp(-1000*q)", "9223372036854775807 + x", "-9223372036854775808 - x", "9223372036854775807 * x",
                 "(-9223372036854775807 - 1) / -1", "1e308 * q", "1e308 * 1e308", "1e-320 / q", "pow(10, 400)", "pow(0, -1)", "sqrt(-1)", "ln(0)", "ln(-1)", "log(0)",
-                "nosuchcolumn", "t.nosuch", "sum(nosuch)", "exp()", "concat()", "greatest(x)", "coalesce()", "substr(w)", "regexp_replace(w)", "count()", "pow(x)", "round()", "ltrim()", "log()", "X'AB'",
+                "nosuchcolumn", "t.nosuch", "sum(nosuch)", "exp()", "concat()", "round(0, 400)", "round(z, 400)", "round(q, -400)", "trunc(0, 400)", "trunc(y, -400)", "round(y, 9223372036854775807)", "greatest(x)", "coalesce()", "substr(w)", "regexp_replace(w)", "count()", "pow(x)", "round()", "ltrim()", "log()", "X'AB'",
             ];
             let one = |e: &str| -> Option<String> {
                 let queries = if name == "c18_query_case" { vec![e.to_string()] } else { vec![format!("SELECT {} AS r FROM t", e), format!("SELECT SUM(q) AS r FROM t WHERE ({}) IS NOT NULL", e), format!("SELECT SUM(q) AS sq FROM t GROUP BY {}", e)] };
@@ -264,8 +264,29 @@ fn run(name: &str, j: &J) -> Result<bool, String> {
             };
             std::panic::set_hook(Box::new(|_| {}));
             if name == "c18_query_case" { let r = one(j["query"].as_str().unwrap()); if let Some(m) = &r { println!("  {}", m); } return Ok(r.is_none()); }
+            if name == "c18_sql_case" && j.get("query").is_some() { return run("c18_query_case", j); }
             if name == "c18_sql_case" { let r = one(j["expr"].as_str().unwrap()); if let Some(m) = &r { println!("  {}", m); } return Ok(r.is_none()); }
             for e in exprs { if let Some(m) = one(e) { println!("  {}", m); println!("QX-WITNESS {}", serde_json::json!({"expr": e})); return Ok(false); } }
+            // whole queries (each compiled as is: parse, build, render, both rewritings): malformed references and unsupported shapes
+            let whole: &[&str] = &[
+                "WITH c AS (SELECT zzz FROM t) SELECT * FROM c", "WITH c AS (SELECT x FROM t), d AS (SELECT nosuch FROM c) SELECT * FROM d", "SELECT * FROM t AS a JOIN t AS b ON a.id = b.zzz",
+                "SELECT a.x FROM t AS a JOIN t AS b USING (zzz)", "SELECT a.x FROM t AS a LEFT JOIN t AS b ON zzz = 1", "SELECT t.* FROM t", "SELECT u.* FROM t", "SELECT x FROM t ORDER BY zzz", "SELECT x FROM t GROUP BY zzz",
+                "SELECT count(*) AS c FROM t HAVING zzz > 1", "SELECT x FROM nosuch", "SELECT x FROM t UNION SELECT w FROM t", "SELECT x FROM t UNION SELECT x, id FROM t", "SELECT x AS a, x AS a FROM t",
+                "SELECT x FROM t LIMIT 10 OFFSET 5", "SELECT a.x FROM t AS a NATURAL JOIN t AS b", "SELECT a.x FROM t AS a CROSS JOIN t AS b CROSS JOIN t AS c", "SELECT DISTINCT zzz FROM t", "SELECT count(DISTINCT zzz) AS c FROM t",
+            ];
+            if name == "c18_sql_search" { for q in whole {
+                let (q2, relations2) = (q.to_string(), relations.clone());
+                let r = std::panic::catch_unwind(std::panic::AssertUnwindSafe(move || -> Result<(), String> {
+                    let relation = Relation::try_from(parse(&q2).map_err(|e| e.to_string())?.with(&relations2)).map_err(|e| e.to_string())?;
+                    let _ = relation.schema().to_string();
+                    let _ = qrlew::ast::Query::from(&relation).to_string();
+                    let pu = PrivacyUnit::from(vec![("t", vec![], "id")]);
+                    let _ = relation.rewrite_as_privacy_unit_preserving(&relations2, None, pu.clone(), DpParameters::from_epsilon_delta(1., 1e-3), None).map(|r| r.relation().schema().to_string());
+                    let _ = relation.rewrite_with_differential_privacy(&relations2, None, pu, DpParameters::from_epsilon_delta(1., 1e-3)).map(|r| r.relation().schema().to_string());
+                    Ok(())
+                }));
+                if r.is_err() { println!("  compiling `{}` panics", q); println!("QX-WITNESS {}", serde_json::json!({"query": q})); return Ok(false); }
+            } }
             Ok(true)
         }
         // C12: a type converted into a union — the converted value must lie in the converted type
